@@ -88,6 +88,17 @@ CHECKS = {
              "of 'decompiles'; totality is modulo resource exhaustion; Interpreter.unused_assignments under a trusted contract; decompilation "
              "is deterministic (DECOMPILES ghost predicate, C13).",
         ref="§C19"),
+    "C06": dict(
+        text="Proof: Pickled.load's loop over pickletools.genops is verified against the invariant 'the stream stands where genops left it; every "
+             "opcode but the last holds exactly its slice of the input; the last is complete or waits for its bytes', for inputs of any length "
+             "and any opcode mix; the genops resumption condition (stream position restored) is an obligation at every back edge; post: every "
+             "opcode's data is its slice, the stream ends just after STOP, content untouched. dumps()/dump() are verified to be the "
+             "concatenation of the data; make_stream per argument kind; StackedPickle.load with ghost start positions: consecutive, strictly "
+             "increasing, each element re-serialising to its slice.",
+        note="Trusted: assumed contract of pickletools.genops and of the stream protocol; Opcode(info=...) constructor; ASCII opcode codes; the "
+             "composition per-opcode-slices => dumps == first pickle uses the telescoping lemma (Lean). Known finding: non-seekable input "
+             "streams are drained. Refutations are replayed by replay/parse_diff.py.",
+        ref="§C06"),
 }
 NA_REASON = "check not built yet (work in progress; see DESIGN.md)"
 
